@@ -6,6 +6,7 @@
 #include <QCoreApplication>
 #include <QPointer>
 #include <QRegExp>
+#include <QSet>
 #include <qhttpengine/handler.h>
 #include <qhttpengine/middleware.h>
 #include <qhttpengine/socket.h>
@@ -25,15 +26,17 @@ struct Log { Val v = Val::List(); };
 class InstrMiddleware : public Middleware
 {
 public:
-    InstrMiddleware(Log *log, int id, bool accept, QObject *parent) : Middleware(parent), mLog(log), mId(id), mAccept(accept) {}
+    // flag: 0 refuses, 1 accepts, 2 accepts exactly the requests that carry an X-Pass header
+    InstrMiddleware(Log *log, int id, int flag, QObject *parent) : Middleware(parent), mLog(log), mId(id), mFlag(flag) {}
     bool process(Socket *socket) override
     {
         mLog->v.add(Val::List({Val::Int(30), Val::List({Val::Int(30), Val::Int(mId)})}));
-        if (!mAccept) { socket->writeError(Socket::Forbidden); return false; }
+        bool accept = mFlag == 0 ? false : (mFlag == 2 ? socket->headers().contains("X-Pass") : true);
+        if (!accept) { socket->writeError(Socket::Forbidden); return false; }
         return true;
     }
 private:
-    Log *mLog; int mId; bool mAccept;
+    Log *mLog; int mId; int mFlag;
 };
 
 class InstrHandler : public Handler
@@ -56,19 +59,16 @@ Handler *build(const Val &n, Log *log, QObject *parent)
 {
     int pk = int(n.at(3).asInt()), pid = int(n.at(4).asInt());
     Handler *h = pk == 0 ? new Handler(parent) : new InstrHandler(log, pk, pid, parent);
-    for (auto &m : n.at(0).l) h->addMiddleware(new InstrMiddleware(log, int(m.at(0).asInt()), m.at(1).asInt() != 0, h));
+    for (auto &m : n.at(0).l) h->addMiddleware(new InstrMiddleware(log, int(m.at(0).asInt()), int(m.at(1).asInt()), h));
     for (auto &r : n.at(1).l) h->addRedirect(QRegExp(QString::fromUtf8(r.at(0).asBytes())), QString::fromUtf8(r.at(1).asBytes()));
     for (auto &s : n.at(2).l) h->addSubHandler(QRegExp(QString::fromUtf8(s.at(0).asBytes())), build(s.at(1), log, h));
     return h;
 }
 }
 
-static Val run_srv(const Val &c)
+// one connection driven by an op schedule against [server]
+static void runConnection(Server *server, Log &log, const Val &ops)
 {
-    Log log;
-    QObject scope;
-    Server *server = new Server(&scope);
-    if (c.at(0).size()) server->setHandler(build(c.at(0), &log, &scope));
     SimTcp *tcp = new SimTcp;
     tcp->onWrite = [&log](const QByteArray &b) { log.v.add(Val::List({Val::Int(5), Val::Bytes(b)})); };
     tcp->onClose = [&log]() { log.v.add(Val::List({Val::Int(6)})); };
@@ -76,7 +76,7 @@ static Val run_srv(const Val &c)
     QPointer<Socket> sock;
     auto avail = [&sock]() -> qint64 { return (sock && sock->isOpen()) ? sock->bytesAvailable() : -1; };
     long long opIndex = 0;
-    for (auto &op : c.at(1).l) {
+    for (auto &op : ops.l) {
         log.v.add(Val::List({Val::Int(20), Val::Int(opIndex++)}));
         switch (op.at(0).asInt()) {
         case 0: if (sock) { if (tcpGuard) tcp->feed(op.at(1).asBytes()); } else if (tcpGuard) tcp->queue(op.at(1).asBytes()); break;
@@ -85,8 +85,10 @@ static Val run_srv(const Val &c)
         case 3: QCoreApplication::sendPostedEvents(nullptr, QEvent::MetaCall); break;
         case 4:
             if (!sock && tcpGuard) {
+                QSet<Socket *> before = server->d->findChildren<Socket *>().toSet();
                 server->d->process(tcp);
-                Socket *s = server->d->findChild<Socket *>();
+                Socket *s = nullptr;
+                for (Socket *x : server->d->findChildren<Socket *>()) if (!before.contains(x)) s = x;
                 if (!s) throw std::runtime_error("nosocket");
                 sock = s;
                 QObject::connect(s, &Socket::headersParsed, [&log, s, avail]() {
@@ -107,8 +109,36 @@ static Val run_srv(const Val &c)
         default: throw std::runtime_error("badcase");
         }
     }
-    if (!sock && tcpGuard) delete tcp;
-    delete server;          // children (ServerPrivate -> Socket -> transport) go with it
+    // the connection goes away: the HTTP socket owns the transport once constructed
+    if (sock) delete sock.data(); else if (tcpGuard) delete tcp;
+    QCoreApplication::sendPostedEvents(nullptr, QEvent::DeferredDelete);
+}
+
+static Val run_srv(const Val &c)
+{
+    Log log;
+    QObject scope;
+    Server *server = new Server(&scope);
+    if (c.at(0).size()) server->setHandler(build(c.at(0), &log, &scope));
+    runConnection(server, log, c.at(1));
+    delete server;
+    QCoreApplication::sendPostedEvents(nullptr, QEvent::DeferredDelete);
+    return log.v;
+}
+
+// several connections, one after the other, to ONE server and handler tree
+static Val run_srvm(const Val &c)
+{
+    Log log;
+    QObject scope;
+    Server *server = new Server(&scope);
+    if (c.at(0).size()) server->setHandler(build(c.at(0), &log, &scope));
+    long long i = 0;
+    for (auto &conn : c.at(1).l) {
+        log.v.add(Val::List({Val::Int(21), Val::Int(i++)}));
+        runConnection(server, log, conn);
+    }
+    delete server;
     QCoreApplication::sendPostedEvents(nullptr, QEvent::DeferredDelete);
     return log.v;
 }
@@ -127,5 +157,6 @@ static Val run_rxprobe(const Val &c)
 void reg_srv()
 {
     registerFamily("srv", run_srv);
+    registerFamily("srvm", run_srvm);
     registerFamily("rxprobe", run_rxprobe);
 }
